@@ -58,9 +58,19 @@ def project(env, facet: str) -> Dict[str, Any]:
 def main(tier: str, seed: int) -> int:
     chk = common.Check("EXT-lifecycle", "model_checking", tier, seed)
     common.boot()
+    run_facets(chk, ("svc", "app", "fs"), tier, seed)
+    chk.assumptions += ["the component's timers are read as max(0, countdown) (the code lets a finished restart countdown run to -1)",
+                        "target components: the dns-server service of host b, the web-browser application of host a and the file tourf/t.txt of host b of harness/tour.py's scenario"]
+    return chk.finish()
+
+
+def run_facets(chk: common.Check, facets, tier: str, seed: int) -> None:
+    """Transition tours of the named facets of Lifecycle.tla through PrimaiteGymEnv, validated against LifecycleTrace.tla and
+    judged with `chk` (also used by C13: timed transitions of software while its node is power-cycled with TIMED start-up
+    and shut-down, which Software.tla's instantaneous power leaves out)."""
     from primaite.session.environment import PrimaiteGymEnv
 
-    for facet in ("svc", "app", "fs"):
+    for facet in facets:
         g = tour.graph(facet)
         chk.add_mc(f"Lifecycle({facet})", g["tlc"])
         eps, st = tour.tour(g, random.Random(seed), episode_len=300, exact=(tier != "quick"))
@@ -108,6 +118,3 @@ def main(tier: str, seed: int) -> int:
                 raise tlc.TLCError(f"LifecycleTrace accepted a corrupted trace ({rejected}/{len(muts)} rejected)")
         chk.cov[f"events_{facet}"] = sum(len(t["ev"]) for t in traces)
         chk.sample({"facet": facet, "events": traces[0]["ev"][:5]})
-    chk.assumptions += ["the component's timers are read as max(0, countdown) (the code lets a finished restart countdown run to -1)",
-                        "target components: the dns-server service of host b, the web-browser application of host a and the file tourf/t.txt of host b of harness/tour.py's scenario"]
-    return chk.finish()
